@@ -510,4 +510,9 @@ PROPS['C06']['proved_part'] += ('; the sort keys themselves: shortlex()/longlex(
                                 'lemma.bitsets.key_order: among sets of equal size the key orders by member POSITION (the set owning the lowest differing position first), key injective')
 PROPS['C06']['level_note'] = ("The key contract of bitsets is now proved from the package source except the member count bin(x).count('1') (assumed = popcount, strictly monotone "
                               'under strict inclusion); B14 (order of naturals by the highest differing bit) is proved in Lean.' + _BS_NOTE)
+PROPS['C13']['units'] += ['definitions.union_update.aliased', 'definitions.intersection_update.aliased']
+PROPS['C13']['bounded_part'] = 'comparison with a plain triple, replay'
+PROPS['C13']['level_note'] = PROPS['C13']['level_note'].replace(', and other is not self for the binary operations', '') + \
+    ' The aliased calls d.union_update(d) / d.intersection_update(d) are proved separately (x op x = x; list lemma fold_self / keep_self in lemmas/Seq.lean).'
+PROPS['C14']['units'] += ['definitions.union_update.aliased', 'definitions.intersection_update.aliased']
 NOT_APPLICABLE = {}
